@@ -10,6 +10,8 @@ pub struct QV { pub drained: bool, pub reg: bool, pub taken: Set<u64>, pub close
 pub struct PendingRequests<Req, Resp> { _p: core::marker::PhantomData<(Req, Resp)> }
 impl<Req, Resp> PendingRequests<Req, Resp> {
     pub uninterp spec fn view(&self) -> QV;
+    /// identity of the queue this receiver drains
+    pub uninterp spec fn queue(&self) -> int;
     #[verifier::external_body]
     pub fn poll_recv(&mut self, cx: &mut TaskCx) -> (r: Poll<Option<DispatchRequest<Req, Resp>>>)
         ensures
